@@ -255,6 +255,19 @@ func famRawClient(w *World) {
 					w.violate("C10", "relay-timeout-not-single-error", "request %s (id %d): destination never completed, caller received %d error frames and %d final response fragments", p.tag, p.id, errs, resLast)
 				} else {
 					for _, f := range rc.Got {
+						tombsFull := false
+						for _, n := range w.Nodes {
+							if n.LogMsgs["Too many tombstones, deleting relay item immediately."] > 0 {
+								tombsFull = true
+							}
+						}
+						if tombsFull {
+							// the (configured, tiny) tombstone limit overflowed: items are then deleted at
+							// once instead of being kept as tombstones, and a late fragment of a timed-out
+							// call is answered "not found" by design
+							w.probe("C10.tombstone-limit-overflowed")
+							continue
+						}
 						if simrt.Cur().StallTime >= 3*time.Second {
 							// a goroutine of the relay was held back for longer than the relay's tombstone
 							// period: by then the relay has rightfully forgotten the call, and a late
